@@ -23,8 +23,10 @@ Direct observation of what the model cannot exhibit (real threads, real hash see
      below, which the generator evaluates on its own bookkeeping, is NOT the judge any more: it is computed next to
      the Gallina class and the two are compared (counters class_agree_* / class_disagree_python=.._gallina=..,
      a sample of disagreements in the notes). Known differences: Gallina counts a no-op #[serde(rename = "Item")]
-     on struct Item as a rename (the Python class sees only rust name -> generated name and misses it), and Python
-     has no per-file class."""
+     on struct Item as a rename, and so does resolve_renamed (repeated runs of the real binary write Item or the
+     other crate's rename); the Python class sees only rust name -> generated name and misses it. import_workspace
+     plants that shape in about 8% of the workspaces, so the disagreement counter is exercised: with the Python
+     class as judge these would be false violations. Python has no per-file class (the generator makes no such file)."""
 import concurrent.futures, hashlib, itertools, json, os, pathlib, shutil, subprocess
 import vf, progs, back
 from vf import S, Lst
@@ -137,10 +139,15 @@ def import_workspace(rng):
     serde rename half of the time) and an `app` crate of 2-3 files whose use statements (explicit, grouped, glob) and fields refer to them."""
     libs = ['alpha', 'beta', 'gamma'][:rng.randint(2, 3)]
     files, defs = {}, {}
-    if rng.random() < 0.3:
+    shape = rng.random()
+    if shape < 0.3 or shape >= 0.92:
         # directed, otherwise clean shape: ONE name generated by two crates under the same generated name, imported explicitly from each of
         # them in two different files of the importing crate and used in both. Nothing is ambiguous for the unchanged code (each import
         # line names its own module), so every run must give the same bytes.
+        # Variant (shape >= 0.92), where the two classes are KNOWN to differ: crate a carries the no-op #[serde(rename = "N")] on struct N, crate b
+        # renames its N to TwinN. resolve_renamed finds a rename entry under either import, so this is class 1 for the Gallina class (and the
+        # output does vary); the Python bookkeeping (rust name -> generated name) cannot see a no-op rename and says unambiguous.
+        noop = shape >= 0.92
         a, b = rng.sample(libs, 2)
         n = rng.choice(POOL)
         ren = rng.choice([None, None, 'Shared' + n])
@@ -151,8 +158,10 @@ def import_workspace(rng):
             src = ''
             for m in sorted(names):
                 gen = (ren or m) if m == n else m
+                if noop and m == n:
+                    gen = m if c == a else 'Twin' + m
                 defs[c][m] = gen
-                attr = f'#[serde(rename = "{gen}")]\n' if gen != m else ''
+                attr = f'#[serde(rename = "{gen}")]\n' if gen != m or (noop and m == n) else ''
                 src += f'#[typeshare]\n{attr}pub struct {m} {{ pub {c}_{m.lower()}: u32 }}\n\n'
             files[f'{c}/src/lib.rs'] = src
         imports = set()
